@@ -272,7 +272,7 @@ CLAIMED = {
 }
 
 # checks that have been verified on the unchanged tree (seeds 1-3) and are therefore claimed
-REGISTERED = {'C01', 'C02', 'C03', 'C04', 'C05', 'C06', 'C07', 'C08', 'C09', 'C10', 'C11', 'C12', 'C13', 'C14', 'C15', 'C18', 'C20'}
+REGISTERED = {'C01', 'C02', 'C03', 'C04', 'C05', 'C06', 'C07', 'C08', 'C09', 'C10', 'C11', 'C12', 'C13', 'C14', 'C15', 'C16', 'C17', 'C18', 'C19', 'C20'}
 
 m = {
  'version': 1,
